@@ -41,10 +41,12 @@
 import CatVerif.Proofs.Resolve
 import CatVerif.Proofs.Log
 import CatVerif.Proofs.ResolveLine
-import CatVerif.Proofs.Readers
+import CatVerif.Proofs.Readers.Name
+import CatVerif.Proofs.Readers.Ack
 import CatVerif.Proofs.Steps.Found
 import CatVerif.Proofs.Steps.Resolve
 import CatVerif.Proofs.Steps.Lanes
+import CatVerif.Proofs.Setters.Prepare
 namespace Cat
 open St
 
@@ -436,5 +438,12 @@ theorem C02_lane_bits_generated (b i v : Nat) (hb : b < 256) :
     laneGet b i = Gen.get_cmd_state_bits b i ∧ laneSet b i v = Gen.set_cmd_state_bits b i v ∧
     i / 4 = Gen.get_cmd_state_index i ∧ i / 4 = Gen.set_cmd_state_index i :=
   ⟨laneGet_generated b i hb, laneSet_generated b i v hb, (lane_index_generated i).1, (lane_index_generated i).2⟩
+
+/-- the start of name resolution — every entry's lane preset to PARTIAL_MATCH, cursors and request type cleared
+(`prepare_parse_command`), the search cursor (`prepare_search_command`) — is translated from the source on every run
+(translator item T7) -/
+theorem C02_prepare_generated (D : Desc) (s : St) :
+    prepareParseCommand D s = Gen.prepare_parse_command D s ∧ prepareSearchCommand s = Gen.prepare_search_command D s :=
+  ⟨prepareParseCommand_generated D s, prepareSearchCommand_generated D s⟩
 
 end Cat
